@@ -66,6 +66,11 @@ static int val_of(const Tracked &t) { return t.value(); }
 static int val_of(int t) { return t; }
 // double elements: codes 1000 / 1001 / 1002 stand for +0.0 / -0.0 / NaN (values whose == is not byte equality)
 static int val_of(double d) { if (d != d) return 1002; if (d == 0) return std::signbit(d) ? 1001 : 1000; return (int)d; }
+// an element that is trivially destructible but not trivially copyable: it holds a pointer to itself, which every constructor sets;
+// an element that was put in place by copying bytes instead of being constructed reports -777000 - (its value)
+struct SP { int v; const SP *self; SP() : v(0), self(this) {} SP(int x) : v(x), self(this) {} SP(const SP &o) : v(o.v), self(this) {}
+    SP &operator=(const SP &o) { v = o.v; return *this; } bool operator==(const SP &o) const { return v == o.v; } bool operator!=(const SP &o) const { return v != o.v; } bool operator<(const SP &o) const { return v < o.v; } };
+static int val_of(const SP &s) { return s.self == &s ? s.v : -777000 - s.v; }
 template <class E> static E from_code(long v) { return E((int)v); }
 template <> double from_code<double>(long v) { return v == 1000 ? 0.0 : v == 1001 ? -0.0 : v == 1002 ? std::nan("") : (double)v; }
 
@@ -152,8 +157,9 @@ template <class Cn, class E, bool Static> struct Runner {
 struct Any { virtual void op(const std::vector<std::string> &) = 0; virtual void finish() = 0; virtual ~Any() {} };
 template <class Cn, class E, bool S> struct Impl : Any { Runner<Cn, E, S> r; void op(const std::vector<std::string> &t) override { r.op(t); } void finish() override { r.finish(); } };
 static Any *make(const std::string &kind, const std::string &elem, int N) {
-    if (kind == "vec") { if (elem == "tracked") return new Impl<igris::vector<Tracked, TrackAlloc<Tracked>>, Tracked, false>(); if (elem == "dbl") return new Impl<igris::vector<double, TrackAlloc<double>>, double, false>(); return new Impl<igris::vector<int, TrackAlloc<int>>, int, false>(); }
+    if (kind == "vec") { if (elem == "tracked") return new Impl<igris::vector<Tracked, TrackAlloc<Tracked>>, Tracked, false>(); if (elem == "dbl") return new Impl<igris::vector<double, TrackAlloc<double>>, double, false>(); if (elem == "sp") return new Impl<igris::vector<SP, TrackAlloc<SP>>, SP, false>(); return new Impl<igris::vector<int, TrackAlloc<int>>, int, false>(); }
     if (elem == "tracked") { if (N == 1) return new Impl<igris::static_vector<Tracked, 1>, Tracked, true>(); if (N == 2) return new Impl<igris::static_vector<Tracked, 2>, Tracked, true>(); if (N == 3) return new Impl<igris::static_vector<Tracked, 3>, Tracked, true>(); if (N == 4) return new Impl<igris::static_vector<Tracked, 4>, Tracked, true>(); if (N == 5) return new Impl<igris::static_vector<Tracked, 5>, Tracked, true>(); if (N == 300) return new Impl<igris::static_vector<Tracked, 300>, Tracked, true>(); if (N == 255) return new Impl<igris::static_vector<Tracked, 255>, Tracked, true>(); if (N == 256) return new Impl<igris::static_vector<Tracked, 256>, Tracked, true>(); fprintf(stderr, "capacity %d is not instantiated\n", N); exit(3); }
+    if (elem == "sp") { if (N == 1) return new Impl<igris::static_vector<SP, 1>, SP, true>(); if (N == 2) return new Impl<igris::static_vector<SP, 2>, SP, true>(); if (N == 3) return new Impl<igris::static_vector<SP, 3>, SP, true>(); if (N == 4) return new Impl<igris::static_vector<SP, 4>, SP, true>(); if (N == 5) return new Impl<igris::static_vector<SP, 5>, SP, true>(); fprintf(stderr, "capacity %d is not instantiated\n", N); exit(3); }
     if (N == 1) return new Impl<igris::static_vector<int, 1>, int, true>(); if (N == 2) return new Impl<igris::static_vector<int, 2>, int, true>(); if (N == 3) return new Impl<igris::static_vector<int, 3>, int, true>(); if (N == 4) return new Impl<igris::static_vector<int, 4>, int, true>(); if (N == 5) return new Impl<igris::static_vector<int, 5>, int, true>(); if (N == 300) return new Impl<igris::static_vector<int, 300>, int, true>(); if (N == 255) return new Impl<igris::static_vector<int, 255>, int, true>(); if (N == 256) return new Impl<igris::static_vector<int, 256>, int, true>();
     if (N == 65535) return new Impl<igris::static_vector<int, 65535>, int, true>(); if (N == 65536) return new Impl<igris::static_vector<int, 65536>, int, true>(); if (N == 65537) return new Impl<igris::static_vector<int, 65537>, int, true>(); fprintf(stderr, "capacity %d is not instantiated\n", N); exit(3);
 }
